@@ -47,7 +47,7 @@ TECHNIQUE = "virtual-clock fault/interruption injection + recorded trace compari
 ASSUMPTIONS = ["the searcher reads time only through the module attribute replaced by the virtual clock"]
 N = {"quick": 6, "thorough": 8}
 FLOORS = {
-    "quick": {"nontrivial": 250, "counters": {"resume.interruptions": 350, "resume.pickles_compared": 400,
+    "quick": {"nontrivial": 200, "counters": {"resume.interruptions": 300, "resume.pickles_compared": 400,
                                                "resume.packet_streams_compared": 700,
                                                "resume.final_digests_compared": 700},
               "seen": {"db": 4, "universe": 2}},
